@@ -265,7 +265,26 @@ def validate_file(spec, path, workdir, off=()):
         raise Inconclusive('TLC trace validation failed to run:\n' + out[-4000:])
     for m in re.finditer(r'TRACE_DEVIATION", "(\w+)", (\d+)', out):
         DEVIATIONS.setdefault(m.group(1), (path, int(m.group(2))))
-    rej = sorted({int(m.group(1)) for m in re.finditer(r'TRACE_REJECTED_AT_LINE", (\d+), "of"', out)})
+    dead = sorted({int(m.group(1)) for m in re.finditer(r'TRACE_REJECTED_AT_LINE", (\d+), "of"', out)})
+    ok = {int(m.group(1)) for m in re.finditer(r'TRACE_SEGMENT_OK", (\d+)', out)}
+    if not dead:
+        return [], st['distinct']
+    # a scenario (Begin .. line before the next Begin) is rejected iff NO branch consumed its End line; the
+    # line reported is the furthest one any branch got stuck at
+    begins = []
+    with open(path) as f:
+        for i, ln in enumerate(f, 1):
+            if '"ev":"Begin"' in ln:
+                begins.append(i)
+        nlines = i if begins or True else 0
+    rej = []
+    for k, b in enumerate(begins):
+        e = (begins[k + 1] - 1) if k + 1 < len(begins) else nlines
+        d = [x for x in dead if b <= x <= e]
+        if d and not any(b <= x <= e for x in ok):
+            rej.append(max(d))
+    if not begins:
+        rej = dead
     return rej, st['distinct']
 
 
